@@ -199,9 +199,10 @@ Definition format_atom (g : graph) (default_h : Z -> bool) (k : Z) : res pystr :
 
 (** ------------------------------------------------------------------ the serialisation loop *)
 Record wenv := {
+  e_smiles : bool;                 (* smiles_format *)
   e_fmt : Z -> res pystr;          (* node text, bonding descriptors included *)
   e_sym : Z -> Z -> res pystr;     (* text written for the tree edge (previous, current) *)
-  e_rsym : Z -> Z -> res pystr;    (* text written before an OPENING ring marker (empty in CG mode) *)
+  e_rsym : Z -> Z -> res pystr;    (* text written before an OPENING ring marker *)
   e_succ : list (Z * list Z);
   e_pred : list (Z * list Z);
   e_rings : list (Z * list nat);   (* atom_to_ring_idx *)
@@ -242,7 +243,8 @@ Fixpoint ring_loop (env : wenv) (st : list (nat * nat) * pystr * list nat) (ris 
 Definition wstep (env : wenv) (current : Z) (st : wst) : res wst :=
   let in_branch := memz current (w_branches st) in
   let depth := if in_branch then Datatypes.S (w_depth st) else w_depth st in
-  let out := if in_branch then w_out st ++ S "(" else w_out st in
+  (* SMILES puts the bond symbol inside the parenthesis, CGsmiles in front of it (fix be4ff6e) *)
+  let out := if in_branch && e_smiles env then w_out st ++ S "(" else w_out st in
   let branches := if in_branch then filter (fun x => negb (Z.eqb x current)) (w_branches st) else w_branches st in
   sym <- match dl_get current (e_pred env) with
          | None => Ok []
@@ -250,7 +252,7 @@ Definition wstep (env : wenv) (current : Z) (st : wst) : res wst :=
          | Some _ => Err EAssert
          end ;;
   node <- e_fmt env current ;;
-  let out := out ++ sym ++ node in
+  let out := out ++ sym ++ (if in_branch && negb (e_smiles env) then S "(" else []) ++ node in
   '(marks, out, trc) <- match dl_get current (e_rings env) with
                         | None => Ok (w_marks st, out, [])
                         | Some ris => ring_loop env (w_marks st, out, []) ris
@@ -298,9 +300,9 @@ Definition run_writer (n : nat) (env : wenv) (start : Z) : res wres :=
         r_visit := rev (w_visit st); r_mtrace := rev (w_mtrace st) |}.
 
 (** the tables write_graph computes before the loop *)
-Definition mk_env (fmt : Z -> res pystr) (sym rsym : Z -> Z -> res pystr) (tree tr : list (Z * Z)) : wenv :=
+Definition mk_env (sf : bool) (fmt : Z -> res pystr) (sym rsym : Z -> Z -> res pystr) (tree tr : list (Z * Z)) : wenv :=
   let succ := succ_of tree in
-  {| e_fmt := fmt; e_sym := sym; e_rsym := rsym; e_succ := succ; e_pred := pred_of succ;
+  {| e_smiles := sf; e_fmt := fmt; e_sym := sym; e_rsym := rsym; e_succ := succ; e_pred := pred_of succ;
      e_rings := ring_tables tr; e_tr := tr |}.
 
 (** write_graph(molecule, smiles_format) given the transcript [tr] of list(total_edges - edges);
@@ -312,8 +314,7 @@ Definition write_graph_full (smiles_format : bool) (default_h : Z -> bool) (g : 
   start <- min_node g ;;
   tree <- dfs_edges g start ;;
   run_writer (length g)
-    (mk_env (node_text smiles_format default_h g) (edge_text g)
-            (fun i j => if smiles_format then edge_text g i j else Ok []) tree tr)
+    (mk_env smiles_format (node_text smiles_format default_h g) (edge_text g) (edge_text g) tree tr)
     start.
 Definition write_graph (smiles_format : bool) (default_h : Z -> bool) (g : graph) (tr : list (Z * Z)) : res pystr :=
   r <- write_graph_full smiles_format default_h g tr ;; Ok (r_text r).
